@@ -111,6 +111,9 @@ def lib_from_ref(cells, route='builder'):
             lc = Cell(ba, refs, t)
         elif route == 'plain':
             lc = Cell(bitarray(c.bits), refs, t)
+        elif route == 'tvm-le':
+            # a TvmBitarray the caller asked to keep in a little-endian buffer: the bit SEQUENCE is what the cell holds
+            lc = Cell(TvmBitarray(1023, c.bits, endian='little'), refs, t)
         elif route == 'plain-le':
             # a plain bitarray whose BUFFER is little-endian; the bit sequence (what to01() / iteration give) is the same
             lc = Cell(bitarray(c.bits, endian='little'), refs, t)
